@@ -33,6 +33,8 @@ def fingerprint(case, cfg, rows=None, rename=None):
 
 
 def rename_map(values):
+    if values and all(isinstance(v, (int, np.integer)) and not isinstance(v, bool) for v in values):
+        return {v: int(v) * 10 + 5000 for v in set(values)}                      # integer codes: an increasing map (codes that can no longer be mistaken for ranks)
     names = sorted(set(v for v in values if isinstance(v, str)))
     return {v: 'n%03d_%s' % (i, v[::-1]) for i, v in enumerate(names)}           # sorted order of the new names == sorted order of the old ones
 
@@ -65,7 +67,7 @@ def variants(case, rng):
         ok = True
         for f in quali:
             vals = list(X[f].dropna().tolist()) + list(case['values_orders'].get(f, [])) + (list(case['X_dev'][f].dropna().tolist()) if case['X_dev'] is not None else [])
-            if not all(isinstance(v, str) for v in vals): ok = False; break
+            if not (all(isinstance(v, str) for v in vals) or all(isinstance(v, (int, np.integer)) and not isinstance(v, bool) for v in vals)): ok = False; break
             m = rename_map(vals)
             c['X'][f] = X[f].map(lambda v: m.get(v, v))
             if case['X_dev'] is not None: c['X_dev'][f] = case['X_dev'][f].map(lambda v: m.get(v, v))
@@ -89,6 +91,20 @@ def one(arg):
     return recs
 
 
+def intcode_cases(rng, n):
+    """a categorical feature whose categories are small INTEGER CODES (0, 1, 2, ...: the same numbers as the ranks used for output_dtype='float')"""
+    from rtc.c01_carver import PAIRS
+    out = []
+    for t in range(n):
+        k = rng.choice([3, 4, 5]); counts = [rng.choice(PAIRS) for _ in range(k)]
+        if sum(c[1] for c in counts) == 0 or sum(c[0] for c in counts) == 0: continue
+        codes = list(range(k)); rng.shuffle(codes)
+        case = zoo.table_case([(a * 3, b * 3) for a, b in counts], kind='categorical', names=codes)
+        cfg = dict(min_freq=0.04, min_freq_mod=rng.choice([0.0, 0.01, None]), max_n_mod=rng.choice([2, 3, 4]), sort_by=rng.choice(['tschuprowt', 'cramerv']), dropna=True, output_dtype='float')
+        out.append((case, cfg))
+    return out
+
+
 def ushape_cases(rng, n):
     """quantitative count tables with missing values whose target rate is NOT monotone and ties exactly between two non-adjacent values (dropna=True):
     whether two groups may stay apart then depends on which groups are neighbours in the feature's order, never on how their labels are spelled"""
@@ -108,7 +124,7 @@ def ushape_cases(rng, n):
 
 def run(ctx):
     nt, nr = (150, 60) if ctx.tier == 'quick' else (1500, 500)
-    specs = [(c, cfg, ctx.seed * 13 + i) for i, (c, cfg) in enumerate(table_cases(ctx.rng, nt, ctx.tier) + ushape_cases(ctx.rng, nt // 3) + random_cases(ctx.rng, nr))]
+    specs = [(c, cfg, ctx.seed * 13 + i) for i, (c, cfg) in enumerate(table_cases(ctx.rng, nt, ctx.tier) + ushape_cases(ctx.rng, nt // 3) + intcode_cases(ctx.rng, nt // 5) + random_cases(ctx.rng, nr))]
     ctx.bound('carver.fit + transform', '%d count-table frames (exact rate ties, thresholds on group frequencies; a third more with missing values and a non-monotone rate tying between non-adjacent values) and %d random frames; per frame: row permutation, reversal, 3 index relabellings, '
               '11 exact affine maps (a in {0.125,0.5,1,2,3,4,5,8}, b in {-2^40,-2,-1,0,1,3,7,10,2^44}; only maps that are exactly invertible on the data), order-preserving category renaming' % (nt, nr))
     for recs in zoo.pmap(one, specs):
